@@ -121,12 +121,17 @@ def replay_history(hist):
     regs = [CHText(), CHText()]
     drift = None
     signal.signal(signal.SIGALRM, _alarm)
+    # the caller keeps the left operand of every concatenation (t + x, x + t, t.join(...)): like a str it must still show
+    # what it showed, whatever is later done to the result (in-place += included)
+    olds, last_exp = [], []
     for n, st in enumerate(hist):
         op = st['op']
         where = 'step %d (%s)' % (n + 1, op)
         signal.alarm(20)
         try:
             t = regs[0]
+            if op in ('add', 'radd', 'join'):
+                olds.append((t, last_exp, n + 1))
             if op == 'new':
                 regs[0] = CHText(*[_opnd(o, regs) for o in st['args']])
             elif op == 'add':
@@ -190,6 +195,16 @@ def replay_history(hist):
         p = _check_text(regs[0], exp, where)
         if p:
             return p, drift, []
+        last_exp = exp
+        for old, old_exp, k in olds[-3:]:
+            if old is regs[0] and op in ('add', 'radd', 'join') and k == n + 1:
+                continue        # judged below, as soon as the result is changed in place
+            if old is regs[0] or old is regs[1]:
+                if k == n + 1 or old_exp == exp or op in ('swap', 'save'):
+                    continue
+            p = _check_text(old, old_exp, '%s: the operand of the concatenation of step %d, kept by the caller,' % (where, k))
+            if p:
+                return p, drift, []
         if drift is None and _chunks(regs[0]) != st['chunks']:
             drift = '%s: chunk list %s, I-spec %s' % (where, _chunks(regs[0]), st['chunks'])
     return None, drift, []
